@@ -371,7 +371,11 @@ class SB:
             return False
         c = ctx()
         if c is None:
-            raise EngineError("symbolic branch outside an exploration context: %s" % (self,))
+            # closed terms (constants and pi only) are decided numerically
+            try:
+                return bool(evaluate([self], {})[self.id])
+            except EvalUndefined:
+                raise EngineError("symbolic branch outside an exploration context: %s" % (self,))
         return c.decide(self)
 
     def __and__(self, o):
@@ -1044,3 +1048,67 @@ class Dual:
 
     def __repr__(self):
         return 'Dual(%s, %s)' % (show(self.v, 4), show(self.d, 4))
+
+
+def exact_eval(roots, env):
+    """exact rational evaluation (Fractions) of terms built from + * / neg abs ite and comparisons;
+    raises EvalUndefined for anything else (sqrt of a non-square, trig, ...)"""
+    val = {}
+    for n in subterms(roots):
+        a = [val[x.id] for x in n.args]
+        if isinstance(n, SR):
+            op = n.op
+            if op == 'c':
+                v = n.extra
+            elif op == 'v':
+                if n.extra not in env:
+                    raise EvalUndefined(n.extra)
+                v = Fraction(env[n.extra])
+            elif op == '+':
+                v = a[0] + a[1]
+            elif op == '*':
+                v = a[0] * a[1]
+            elif op == '/':
+                if a[1] == 0:
+                    raise EvalUndefined('division by zero')
+                v = a[0] / a[1]
+            elif op == 'neg':
+                v = -a[0]
+            elif op == 'ite':
+                v = a[1] if a[0] else a[2]
+            elif op == 'fn' and n.extra == 'abs':
+                v = abs(a[0])
+            elif op == 'fn' and n.extra == 'floor':
+                v = Fraction(math.floor(a[0]))
+            elif op == 'fn' and n.extra == 'sqrt':
+                x = a[0]
+                if x < 0:
+                    raise EvalUndefined('sqrt<0')
+                rn, rd = math.isqrt(x.numerator), math.isqrt(x.denominator)
+                if rn * rn != x.numerator or rd * rd != x.denominator:
+                    raise EvalUndefined('sqrt inexact')
+                v = Fraction(rn, rd)
+            else:
+                raise EvalUndefined(op + ':' + str(n.extra))
+        else:
+            op = n.op
+            if op == 'T':
+                v = True
+            elif op == 'F':
+                v = False
+            elif op == '<':
+                v = a[0] < a[1]
+            elif op == '<=':
+                v = a[0] <= a[1]
+            elif op == '==':
+                v = a[0] == a[1]
+            elif op == 'not':
+                v = not a[0]
+            elif op == 'and':
+                v = all(a)
+            elif op == 'or':
+                v = any(a)
+            else:
+                raise EvalUndefined(op)
+        val[n.id] = v
+    return val
